@@ -4,6 +4,7 @@
 -/
 import JinjaV.Wire.LRU
 import JinjaV.Wire.Loop
+import JinjaV.Wire.Stream
 
 open JinjaV
 
@@ -15,6 +16,7 @@ def dispatch (line : String) : Sx :=
     | "lru" => Wire.LRU.handle args
     | "lru-lin" => Wire.LRU.handleLin args
     | "loop" => Wire.Loop.handle args
+    | "stream" => Wire.Stream.handle args
     | _ => Sx.bad
   | _ => Sx.bad
 
